@@ -2,7 +2,7 @@
 """C09 — loser trees: Coq tournament-invariant theorems + correspondence of the extracted model with the
 eight real classes (bounded-exhaustive and random replace histories, ASan/UBSan), the implementation's
 reported winners being judged by the Coq-extracted, proved checker."""
-import itertools, json, os, sys
+import itertools, json, os, re, sys
 HERE = os.path.dirname(os.path.abspath(__file__))
 sys.path.insert(0, os.path.join(HERE, "..", "lib"))
 import verif
@@ -14,6 +14,9 @@ pr = ck.prove()
 VARIANTS = [p + g + s for p in "CP" for g in "GU" for s in "SN"]
 # "V": the unguarded classes driven outside their key precondition, the way multiway_merge_loser_tree_combined does
 GENERAL = [p + "V" + s for p in "CP" for s in "SN"]
+# (class letter W of the harness - unstable unguarded trees whose real minimum is merely EQUIVALENT to the padding key while larger
+# keys are present - is a probe mode of the audit, docs/audit/C09.md: there the real code lets a padding leaf win; no caller may
+# rely on it and the check does not generate it)
 
 # ---------------------------------------------------------------- generators
 def case_seqs(c):
@@ -78,10 +81,13 @@ def random_case(rng):
         return random_general(rng)
     v = rng.choice(VARIANTS)
     guarded = v[1] == "G"
-    k = rng.choice([1, 2, 3, 4, 5, 6, 7, 8, 9, 16, 17, 17, 16, 9, 15, 31, 33])
+    k = rng.choice([1, 2, 3, 4, 5, 6, 7, 8, 9, 16, 17, 17, 16, 9, 15, 31, 32, 33])
+    big = rng.chance(1, 40)
+    if big:
+        k = rng.choice([63, 64, 65, 100, 129])
     mode = rng.below(5)
     univ = [1, 2, 3, 3, 50][mode]
-    maxlen = rng.choice([3, 8, 20])
+    maxlen = 3 if big else rng.choice([3, 8, 20])
     sorted_runs = rng.chance(1, 2)
     sent = 0 if guarded else univ + rng.below(2)
     seqs = []
@@ -114,7 +120,9 @@ def flavour(rng, cls):
     # where the caller keeps the keys: p = separate storage, l = one slot per player overwritten in place (same address passed
     # again), t = heap temporary freed right after the call (copy classes only: they must have copied the key)
     store = rng.choice(["p", "l", "l"] if cls[0] == "P" else ["p", "l", "t", "t"])
-    return "%s:%s:%s:%s:%s" % (cls, elem, rng.choice(CMPS), via, store)
+    # extra: bit 1 = init() twice in a row, bit 2 = guarded: three more delete_min_insert(nullptr, true) after the last key
+    extra = rng.choice([0, 0, 1, 2, 3])
+    return "%s:%s:%s:%s:%s:%d" % (cls, elem, rng.choice(CMPS), via, store, extra)
 
 def add_flavours(rng, cases, start):
     for i in range(start, len(cases)):
@@ -153,9 +161,12 @@ def add_orders(rng, cases, start):
                 order[j], order[x] = order[x], order[j]
             if order == list(range(k)):
                 order.reverse()
+        if rng.chance(1, 6):
+            # re-registration: some player is listed a second time, earlier in the order
+            order.insert(rng.below(len(order)), order[rng.below(len(order))])
         cases[i] = " ".join(t[:2] + ["o=" + ",".join(map(str, order))] + t[2:])
 
-REGIME_K = [1, 2, 3, 5, 6, 7, 8, 9, 16, 17, 33, 40]
+REGIME_K = [1, 2, 3, 4, 5, 6, 7, 8, 9, 16, 17, 32, 33, 65]
 def regimes(rng, out, hist):
     """directed cases, every class at every k of REGIME_K: players exhausted from the start at LEFT positions with live
     right neighbours, all players exhausted, a single live player at each end, equal keys everywhere, keys equal to the
@@ -218,7 +229,7 @@ else:
         exhaustive_general(9, 2, 1, cases, hist)
     nreg = regimes(rng, cases, hist)
     nexh = len(cases) - ncorpus
-    NR = 150000 if ck.thorough() else 20000
+    NR = 150000 if ck.thorough() else 15000
     for _ in range(NR):
         cases.append(random_case(rng))
     add_flavours(rng, cases, ncorpus)
@@ -286,6 +297,11 @@ def api_surface():
          "called": g("order=descending") > 0 and g("order=shuffled") > 0,
          "cases": {"ascending": g("order=ascending"), "descending": g("order=descending"), "shuffled": g("order=shuffled"),
                    "per class non-ascending": {v: g(v + "/order=descending") + g(v + "/order=shuffled") for v in sorted(stats)}}},
+        {"api": "a player re-registered (insert_start twice; guarded classes: first as exhausted, then with its key)", "called": g("re-registration/CG") + g("re-registration/PG") > 0,
+         "cases": {t: g("re-registration/" + t) for t in ("CG", "PG", "CU", "PU", "CV", "PV")}},
+        {"api": "init() called twice in a row (crash / result unchanged)", "called": g("init() twice") > 0, "cases": g("init() twice")},
+        {"api": "guarded classes: delete_min_insert(nullptr, true) + min_source() three more times after the last key (no live player; crash check only)",
+         "called": g("overrun: delete_min_insert(nullptr,true) after the last key") > 0, "cases": g("overrun: delete_min_insert(nullptr,true) after the last key")},
         {"api": "insert_start(nullptr, source, true) (player exhausted from the start; guarded classes)", "called": g("insert_start(nullptr,i,true)") > 0, "cases": g("insert_start(nullptr,i,true)")},
         {"api": "init() / init_winner(root) (init_winner is public but only meaningful from init(); reached through init())", "called": True, "cases": sum(stats.values())},
         {"api": "min_source() after init() and after every delete_min_insert()", "called": True, "cases": sum(stats.values())},
@@ -300,6 +316,49 @@ def api_surface():
          "cases": "caller contract: the sentinel object must outlive the tree; the harness keeps it alive (as multiway_merge does)"},
     ]
     return rows
+
+
+# ---------------------------------------------------------------- known finding: more than 2^30 players
+# Source = uint32_t; the constructors size the node array as 2 * k_ (k_ = round_up_to_power_of_two(k)) in 32-bit arithmetic.
+# 2^30 < k <= 2^31: the array gets 0 elements and the constructor's padding loop writes out of bounds (SEGV); 2^31 < k < 2^32:
+# round_up_to_power_of_two wraps to 0, the tree is "constructed" with no node and player 0 cannot be registered.  Same root
+# cause, one key.  Every theorem of Properties_C09.v carries the hypothesis ik <= 2^30 for this reason.  The witnesses need no
+# memory (the allocation is of size 0) and run in child processes; a repaired tree would fail to allocate (or succeed) instead.
+KF_KEY = "players-above-2^30"
+BIGK = [(0, "LoserTreePointer<false,int>", "2^30+1"), (1, "LoserTreeCopy<true,int>", "2^30+1"),
+        (2, "LoserTreePointerUnguarded<true,int>", "2^30+1"), (3, "LoserTreeCopyUnguarded<false,int>", "2^30+1"),
+        (4, "LoserTreePointer<true,int>", "2^31+1"), (5, "LoserTreeCopy<false,int>", "2^31+1"),
+        (6, "LoserTreePointerUnguarded<false,int>", "2^31+1"), (7, "LoserTreeCopyUnguarded<true,int>", "2^31+1")]
+bigk_report = {}
+def probe_big_k():
+    exe2, log2 = ck.build_cpp("c09_big_k", ["harness/C09/big_k.cpp"])
+    if exe2 is None:
+        ck.violation("the > 2^30 players witness harness does not compile against /repo",
+                     {"correspondence": "harness/C09/big_k.cpp", "log": log2[-1500:]}, no_input=True)
+        return
+    failing = []
+    for w, cls, kk in BIGK:
+        rc, out = verif.sh([exe2, str(w)], timeout=60)
+        proper = any(m in out for m in ("out of memory", "allocation-size-too-big", "exceeds maximum supported size", "bad_alloc"))
+        if (rc == 0 and "usable" in out) or "exception " in out or proper:
+            verdict = "ok (usable, or refused by an exception / allocation failure)"
+        elif rc == 124:
+            verdict = "inconclusive (timeout)"
+        else:
+            lines = [l.strip() for l in out.splitlines() if "ERROR: AddressSanitizer" in l or "Assertion" in l or "runtime error" in l]
+            what = (lines[0] if lines else "exit status %d" % rc)
+            what = re.sub(r"==\d+==", "", what.split(" (pc ")[0])
+            what = re.sub(r" on unknown address 0x[0-9a-f]+", " on an unmapped address", what).strip()
+            if "Assertion" in what:
+                what = "constructed with an empty node array; " + what[what.find("Assertion"):][:90]
+            verdict = "FAILS: " + what[:160]
+            failing.append("%s(k = %s): %s" % (cls, kk, what[:120]))
+        bigk_report["%s k=%s" % (cls, kk)] = verdict
+    if failing:
+        ck.violation("more than 2^30 players: 32-bit size arithmetic in the loser tree constructors (2 * k_ and round_up_to_power_of_two wrap); "
+                     "%d of %d zero-memory witnesses fail, e.g. %s" % (len(failing), len(BIGK), failing[0]),
+                     {"case": "tlx::LoserTreePointer<false,int> lt((1u << 30) + 1);  (harness/C09/big_k.cpp <witness 0..7>)",
+                      "witnesses": dict(bigk_report)}, key=KF_KEY)
 
 found = False
 exe, log = ck.build_cpp("c09_harness", ["harness/C09/lt_harness.cpp"],
@@ -351,7 +410,9 @@ else:
             stats[v] += 1
             kk = len(case_seqs(c))
             fl = c.split(" ", 1)[0].split(":")
-            if len(fl) == 5:
+            if len(fl) == 6:
+                if int(fl[5]) & 1: fstats["init() twice"] = fstats.get("init() twice", 0) + 1
+                if int(fl[5]) & 2 and v[1] == "G": fstats["overrun: delete_min_insert(nullptr,true) after the last key"] = fstats.get("overrun: delete_min_insert(nullptr,true) after the last key", 0) + 1
                 for tag in (fl[1], "cmp=" + fl[2], "via=" + fl[3], v[:2] + "/" + fl[1], v[:2] + "/cmp=" + fl[2],
                             "store=" + fl[4], v + "/store=" + fl[4]):
                     fstats[tag] = fstats.get(tag, 0) + 1
@@ -362,6 +423,8 @@ else:
             if otok.startswith("o="):
                 o = otok[2:].split(",")
                 okind = "descending" if o == [str(x) for x in range(len(o) - 1, -1, -1)] else "shuffled"
+                if len(set(o)) < len(o):
+                    fstats["re-registration/" + v[:2]] = fstats.get("re-registration/" + v[:2], 0) + 1
                 fstats["order=" + okind] = fstats.get("order=" + okind, 0) + 1
                 fstats[v + "/order=" + okind] = fstats.get(v + "/order=" + okind, 0) + 1
                 if o[0] != "0" and v[:2] == "CG":
@@ -413,6 +476,8 @@ else:
             if 0 <= i < len(impl) and i < len(model):
                 samples.append({"case": cases[i], "impl": impl[i], "model_and_checker": model[i]})
 
+probe_big_k()
+
 if pr is not None and not pr["ok"]:
     ck.proof_broken(found)
 
@@ -429,11 +494,19 @@ ck.finish({
                            "exhaustive_blocks": sorted(hist.keys()), "corpus": ncorpus},
     "exhaustive": False,
     "api_surface": api_surface(),
+    "known_finding_players_above_2^30": {
+        "key": KF_KEY,
+        "text": "Source = uint32_t: the constructors compute the node array size 2 * k_ and k_ = round_up_to_power_of_two(k) in 32-bit "
+                "arithmetic. 2^30 < k <= 2^31: 0 elements are allocated and the constructor writes out of bounds; 2^31 < k < 2^32: "
+                "round_up_to_power_of_two wraps to 0, the tree is constructed without nodes and no player can be registered. One root cause, "
+                "one key. Recorded, not repaired (the corrected allocation needs > 16 GiB). The theorems assume ik <= 2^30.",
+        "witnesses": bigk_report},
     "flavour_histogram": {k: fstats[k] for k in sorted(fstats)},
     "unstable_cases_equal_to_model": "%d of %d" % (unstable_equal, unstable_total),
     "stable_cases_differing_only_in_the_open_last_report": open_last,
 }, assumptions=[
-    "Source = uint32_t arithmetic is modelled on unbounded N; the theorems assume ik <= 2^30 (2*k_ and k_+source do not wrap)",
+    "Source = uint32_t arithmetic is modelled on unbounded N; the theorems assume ik <= 2^30 (2*k_ and k_+source do not wrap); "
+    "beyond that bound the real constructors misbehave: known finding players-above-2^30, re-probed on every run",
     "round_up_to_power_of_two(ik) is modelled by its specification 2^ceil(log2 ik) (its word-level code is property C20)",
     "copy and pointer classes share the model: key copy + sup flag <-> key pointer / nullptr; slots the constructors leave "
     "indeterminate are modelled by the padding value (each is written before it is read)",
